@@ -34,11 +34,13 @@ var (
 )
 
 type report struct {
-	Files       []string `json:"files"`
-	Selects     int      `json:"selects_hoisted"`
-	Recvs       int      `json:"receives_rewritten"`
-	Points      int      `json:"yield_points"`
-	Unsupported []string `json:"unsupported"`
+	Files   []string `json:"files"`
+	Selects int      `json:"selects_hoisted"`
+	Recvs   int      `json:"receives_rewritten"`
+	Points  int      `json:"yield_points"`
+	// functions that mention mutable package-level variables: a point before every statement
+	StatementLevel []string `json:"statement_level_functions"`
+	Unsupported    []string `json:"unsupported"`
 }
 
 var rep report
@@ -72,6 +74,10 @@ func main() {
 	}
 	for d, what := range dirs {
 		files, _ := filepath.Glob(filepath.Join(*repo, d, "*.go"))
+		globals := map[string]bool{}
+		if what[1] {
+			globals = mutableGlobals(files)
+		}
 		for _, f := range files {
 			if strings.HasSuffix(f, "_test.go") {
 				continue
@@ -90,7 +96,7 @@ func main() {
 				changed = rewriteTime(af, fset) || changed
 			}
 			if what[1] {
-				changed = rewriteYield(af, d) || changed
+				changed = rewriteYield(af, d, globals) || changed
 			}
 			if !changed {
 				continue
@@ -265,7 +271,7 @@ func rewriteTime(af *ast.File, fset *token.FileSet) bool {
 }
 
 // rewriteYield inserts a scheduling point at every function entry.
-func rewriteYield(af *ast.File, dir string) bool {
+func rewriteYield(af *ast.File, dir string, globals map[string]bool) bool {
 	pkg := filepath.Base(dir)
 	n := 0
 	for _, d := range af.Decls {
@@ -279,6 +285,45 @@ func rewriteYield(af *ast.File, dir string) bool {
 		}
 		call := &ast.ExprStmt{X: &ast.CallExpr{Fun: &ast.SelectorExpr{X: ast.NewIdent("vsched"), Sel: ast.NewIdent("Point")},
 			Args: []ast.Expr{&ast.BasicLit{Kind: token.STRING, Value: strconv.Quote(pkg + "." + name)}}}}
+		// a function that mentions mutable package-level state gets a point before every statement,
+		// so that interleavings between its reads and writes of that state are explored
+		touches := false
+		ast.Inspect(fd.Body, func(nd ast.Node) bool {
+			if id, ok := nd.(*ast.Ident); ok && globals[id.Name] {
+				touches = true
+			}
+			return !touches
+		})
+		if touches {
+			k := 0
+			ast.Inspect(fd.Body, func(nd ast.Node) bool {
+				var list *[]ast.Stmt
+				switch b := nd.(type) {
+				case *ast.BlockStmt:
+					list = &b.List
+				case *ast.CaseClause:
+					list = &b.Body
+				case *ast.CommClause:
+					list = &b.Body
+				}
+				if list != nil && len(*list) > 0 {
+					var out []ast.Stmt
+					for _, st := range *list {
+						if _, isDecl := st.(*ast.LabeledStmt); !isDecl {
+							k++
+							out = append(out, &ast.ExprStmt{X: &ast.CallExpr{Fun: &ast.SelectorExpr{X: ast.NewIdent("vsched"), Sel: ast.NewIdent("Point")},
+								Args: []ast.Expr{&ast.BasicLit{Kind: token.STRING, Value: strconv.Quote(fmt.Sprintf("%s.%s#%d", pkg, name, k))}}}})
+						}
+						out = append(out, st)
+					}
+					*list = out
+				}
+				return true
+			})
+			n += k
+			rep.StatementLevel = append(rep.StatementLevel, pkg+"."+name)
+			continue
+		}
 		fd.Body.List = append([]ast.Stmt{call}, fd.Body.List...)
 		n++
 	}
@@ -358,4 +403,104 @@ func walkValue(fv reflect.Value, f func(ast.Node) ast.Node) {
 			walkValue(fv.Index(i), f)
 		}
 	}
+}
+
+// mutableGlobals returns the package-level variables of the package that are written somewhere
+// outside their declaration and outside init(): assigned, incremented, ranged into, passed as the
+// destination of copy/append, address-taken, or used as the receiver of a method call. Variables that
+// are only ever read (error sentinels, OIDs, the embedded root parsed in init) are not shared mutable state.
+func mutableGlobals(files []string) map[string]bool {
+	declared := map[string]bool{}
+	var parsed []*ast.File
+	for _, f := range files {
+		if strings.HasSuffix(f, "_test.go") {
+			continue
+		}
+		af, err := parser.ParseFile(token.NewFileSet(), f, nil, 0)
+		if err != nil {
+			continue
+		}
+		parsed = append(parsed, af)
+		for _, dcl := range af.Decls {
+			if gd, ok := dcl.(*ast.GenDecl); ok && gd.Tok == token.VAR {
+				for _, sp := range gd.Specs {
+					for _, n := range sp.(*ast.ValueSpec).Names {
+						if n.Name != "_" {
+							declared[n.Name] = true
+						}
+					}
+				}
+			}
+		}
+	}
+	written := map[string]bool{}
+	root := func(e ast.Expr) string {
+		for {
+			switch x := e.(type) {
+			case *ast.Ident:
+				return x.Name
+			case *ast.IndexExpr:
+				e = x.X
+			case *ast.SliceExpr:
+				e = x.X
+			case *ast.SelectorExpr:
+				e = x.X
+			case *ast.StarExpr:
+				e = x.X
+			case *ast.ParenExpr:
+				e = x.X
+			default:
+				return ""
+			}
+		}
+	}
+	mark := func(e ast.Expr) {
+		if n := root(e); declared[n] {
+			written[n] = true
+		}
+	}
+	for _, af := range parsed {
+		for _, dcl := range af.Decls {
+			fd, ok := dcl.(*ast.FuncDecl)
+			if !ok || fd.Body == nil || (fd.Name.Name == "init" && fd.Recv == nil) {
+				continue
+			}
+			ast.Inspect(fd.Body, func(nd ast.Node) bool {
+				switch x := nd.(type) {
+				case *ast.AssignStmt:
+					if x.Tok != token.DEFINE {
+						for _, l := range x.Lhs {
+							mark(l)
+						}
+					}
+				case *ast.IncDecStmt:
+					mark(x.X)
+				case *ast.RangeStmt:
+					if x.Tok == token.ASSIGN {
+						if x.Key != nil {
+							mark(x.Key)
+						}
+						if x.Value != nil {
+							mark(x.Value)
+						}
+					}
+				case *ast.UnaryExpr:
+					if x.Op == token.AND {
+						mark(x.X)
+					}
+				case *ast.CallExpr:
+					if id, ok := x.Fun.(*ast.Ident); ok && (id.Name == "append" || id.Name == "copy") && len(x.Args) > 0 {
+						mark(x.Args[0])
+					}
+					if sel, ok := x.Fun.(*ast.SelectorExpr); ok {
+						if id, ok := sel.X.(*ast.Ident); ok && declared[id.Name] {
+							written[id.Name] = true // method call on a package-level variable may mutate it
+						}
+					}
+				}
+				return true
+			})
+		}
+	}
+	return written
 }
